@@ -1,9 +1,11 @@
 import glob, hashlib, json, os, random, re, resource, shutil, subprocess, tempfile, vlib
 from concurrent.futures import ThreadPoolExecutor
 
-THEOREMS = ["Folang.Props.C16." + t for t in "driver_exit0_complete driver_failure_discipline scan_progress nextNonSpace_none_is_panic nextNonSpace_bounds newTkz_inside tkzNext_advances resolve_terminates resolveIn_fuel transTV_fuel resolve_unfixed_diverges".split()]
+THEOREMS = ["Folang.Props.C16." + t for t in "driver_exit0_complete driver_failure_discipline scan_progress nextNonSpace_none_is_panic nextNonSpace_bounds newTkz_inside tkzNext_advances resolve_terminates resolveIn_fuel transTV_fuel resolve_unfixed_diverges".split()] + \
+    ["Folang.Props.C16Block." + t for t in "block_terminates list_terminates stmt_progress all_ok".split()]
 
 ASSUMPTIONS = [
+    "offside block parser model (Model/Offside.lean, tied to the real tokenizer + parser by C06's c06.block stream): block_terminates / list_terminates - with fuel 3*tokens+3 the recursion parseBlock -> parseStmtList -> parseStmt -> parseBlock never runs out of fuel on ANY token sequence; stmt_progress - every statement consumes at least one token. The expression parser inside a statement and the other list loops of the real parser are not in this model",
     "model: main/transpileFiles/transpileOne/OnParseError with the per-file translation and file I/O abstract (readable / translates / writable per argument); the tokenizer (scanTokenAt and all scanners, nextToken, newTkz, tkzNext) at byte level",
     "partial: termination of the parser, of constraint collection / the resolver update loop and of emission is NOT modelled; the resolution of type variables IS: resolve_terminates (Props/C16Resolve.lean) proves for every resolver, cyclic or not, and every type that resolveType with the visiting list of fix 1e8a7fd ends with a type or the recursive-type diagnostic within (number of bound names + 1) nested calls, resolve_unfixed_diverges is the witness for the code before the fix, and the model is tied to the real resolveType on random hand-built resolvers (stream c16.resolve). The rest: it is tied by running the real binary under a timeout and a memory limit on mutants; the tokenizer IS proved to make progress: scan_progress (every token of every scanner consumes >= 1 byte and stays inside the buffer, all byte strings), nextNonSpace_none_is_panic (the token loop never runs out of fuel: it fails only where a scanner panics), tkzNext_advances (positions strictly increase until EOF)",
     "cannot be exhibited by any model: Go stack exhaustion on deeply nested but finite input, out-of-memory, OS-level hangs",
@@ -83,10 +85,10 @@ def run(ctx):
     fc = ctx.build_go("fc", srcdir=os.path.join(vlib.REPO, "fc"), out=os.path.join(vlib.BUILD, "fc"))
     ctx.assumptions += ASSUMPTIONS
     ctx.partial += ["parser / constraint collection / emission termination: tied by mutants under timeout, not proved"]
-    ctx.lake_build(["Folang.Props.C16", "Folang.Props.C16Resolve"])
-    ctx.audit(THEOREMS, ["Folang.Props.C16", "Folang.Props.C16Resolve"])
+    ctx.lake_build(["Folang.Props.C16", "Folang.Props.C16Resolve", "Folang.Props.C16Block"])
+    ctx.audit(THEOREMS, ["Folang.Props.C16", "Folang.Props.C16Resolve", "Folang.Props.C16Block"])
     if ctx.tier == "thorough":
-        ctx.leanchecker(["Folang.Props.C16", "Folang.Props.C16Resolve"])
+        ctx.leanchecker(["Folang.Props.C16", "Folang.Props.C16Resolve", "Folang.Props.C16Block"])
     # 1. tokenizer streams (scanner totality: every input ends in EOF or a panic, never out of fuel)
     n = 1500 if ctx.tier == "quick" else 40000
     env = dict(os.environ, FC_VERIF="tok", FC_VERIF_ARGS="%d %d" % (ctx.seed, n), FC_VERIF_REPO=vlib.REPO)
